@@ -1,1 +1,752 @@
-//! fontgen: binary sfnt writer for generated test fonts (stub).
+//! fontgen: binary sfnt (OpenType/TrueType) font writer for generated test fonts.
+//!
+//! `build(&FontSpec) -> Vec<u8>` turns a plain-data font description into bytes that
+//! `rustybuzz::Face::from_slice(&bytes, 0)` accepts.  The writer is deterministic (a pure function
+//! of the spec) and writes exactly what the spec says: it never sorts, deduplicates or merges
+//! caller data (the only derived values are counts, offsets, value formats, binary-search headers
+//! and `startCoverageIndex`).  Sort orders that the parsers rely on are the caller's business;
+//! `check(&FontSpec)` lists violations.
+//!
+//! Conventions
+//! * glyph 0 is `.notdef`; `FontSpec::basic(n)` maps U+E000+i -> glyph i+1 (`pua(i)`).
+//! * `backtrack` sequences (rules, coverages) are in FONT order: element 0 is the glyph
+//!   immediately before the input sequence, element 1 the one before that, and so on.
+//! * `input` of rules / `components` of ligatures start at the SECOND glyph (the first one is
+//!   given by the coverage / class index).
+//! * No device tables, no anchors of format 2/3, no FeatureVariations, no feature params.
+
+pub mod aat;
+pub mod layout;
+pub mod selftest;
+pub mod sfnt;
+pub mod w;
+
+pub use selftest::selftest;
+
+pub type Tag = [u8; 4];
+
+/// U+E000 + i : the i-th private use character (glyph i+1 in `FontSpec::basic`).
+pub fn pua(i: u32) -> u32 {
+    0xE000 + i
+}
+
+// ---------------------------------------------------------------------------------------------
+// top level
+
+#[derive(Clone, Debug, Default)]
+pub struct FontSpec {
+    /// maxp (version 0.5).
+    pub num_glyphs: u16,
+    /// head.unitsPerEm (ttf-parser requires 16..=16384).
+    pub units_per_em: u16,
+    /// hhea.
+    pub ascender: i16,
+    pub descender: i16,
+    pub line_gap: i16,
+    /// hmtx advance per glyph (len == num_glyphs; numberOfHMetrics = num_glyphs), lsb 0.
+    pub hadv: Vec<u16>,
+    /// vhea + vmtx.
+    pub vmetrics: Option<VMetrics>,
+    /// code point -> glyph id; must be sorted by code point, no duplicates.
+    pub cmap: Vec<(u32, u16)>,
+    pub cmap_format: CmapFormat,
+    /// (base, variation selector, glyph): cmap format 14 non-default UVS mappings under
+    /// platform 0 / encoding 5; must be sorted by (selector, base); empty => no subtable.
+    pub cmap14: Vec<(u32, u32, u16)>,
+    pub gdef: Option<Gdef>,
+    pub gsub: Option<Layout<SubstSubtable>>,
+    pub gpos: Option<Layout<PosSubtable>>,
+    /// OpenType 'kern' version 0 with format 0 subtables.
+    pub kern: Option<Vec<KernSubtable>>,
+    pub morx: Option<Morx>,
+    /// false: 'post' version 3.0 (no names); true: 'post' version 2.0 with names ".notdef", "g1", "g2", ...
+    pub post_names: bool,
+}
+
+#[derive(Clone, Debug, Default)]
+pub struct VMetrics {
+    pub ascender: i16,
+    pub descender: i16,
+    pub line_gap: i16,
+    /// vmtx advance height per glyph (len == num_glyphs), top side bearing 0.
+    pub vadv: Vec<u16>,
+}
+
+#[derive(Clone, Copy, Debug, Default, PartialEq, Eq)]
+pub enum CmapFormat {
+    /// format 12 under platform 3 / encoding 10.
+    #[default]
+    Format12,
+    /// format 4 under platform 3 / encoding 1 (BMP only; panics on code points above U+FFFF).
+    Format4,
+    /// both subtables (format 4 gets the BMP part of the mapping).
+    Both,
+}
+
+// ---------------------------------------------------------------------------------------------
+// GDEF
+
+/// GDEF version 1.0, or 1.2 with MarkGlyphSetsDef when `mark_glyph_sets` is non-empty.
+/// `glyph_classes` / `mark_attach_classes` are written as ClassDef format 2 with one range per
+/// maximal run of consecutive glyph ids of equal class (entries must be sorted by glyph id); an
+/// empty list gives a NULL offset (no class definition at all).
+#[derive(Clone, Debug, Default)]
+pub struct Gdef {
+    /// (glyph, class): 1 base, 2 ligature, 3 mark, 4 component.
+    pub glyph_classes: Vec<(u16, u16)>,
+    pub mark_attach_classes: Vec<(u16, u16)>,
+    /// each set is written as a format 1 coverage (glyphs must be sorted).
+    pub mark_glyph_sets: Vec<Vec<u16>>,
+}
+
+// ---------------------------------------------------------------------------------------------
+// GSUB / GPOS common
+
+#[derive(Clone, Debug)]
+pub struct Layout<S> {
+    /// ScriptList records in this order (parsers binary-search: sort by tag).
+    pub scripts: Vec<ScriptRecord>,
+    /// FeatureList records in this order (indices are referenced by LangSys).
+    pub features: Vec<FeatureRecord>,
+    pub lookups: Vec<Lookup<S>>,
+}
+
+impl<S> Default for Layout<S> {
+    fn default() -> Self {
+        Layout { scripts: Vec::new(), features: Vec::new(), lookups: Vec::new() }
+    }
+}
+
+#[derive(Clone, Debug, Default)]
+pub struct ScriptRecord {
+    pub tag: Tag,
+    pub default_langsys: Option<LangSys>,
+    /// LangSysRecords in this order (sort by tag).
+    pub langsys: Vec<(Tag, LangSys)>,
+}
+
+#[derive(Clone, Debug, Default)]
+pub struct LangSys {
+    /// None => 0xFFFF.
+    pub required_feature: Option<u16>,
+    pub feature_indices: Vec<u16>,
+}
+
+#[derive(Clone, Debug, Default)]
+pub struct FeatureRecord {
+    pub tag: Tag,
+    pub lookup_indices: Vec<u16>,
+}
+
+pub mod lookup_flags {
+    pub const RIGHT_TO_LEFT: u16 = 0x0001;
+    pub const IGNORE_BASE_GLYPHS: u16 = 0x0002;
+    pub const IGNORE_LIGATURES: u16 = 0x0004;
+    pub const IGNORE_MARKS: u16 = 0x0008;
+    pub const USE_MARK_FILTERING_SET: u16 = 0x0010;
+    pub const MARK_ATTACHMENT_TYPE_MASK: u16 = 0xFF00;
+}
+
+#[derive(Clone, Debug)]
+pub struct Lookup<S> {
+    /// RightToLeft=1, IgnoreBase=2, IgnoreLigatures=4, IgnoreMarks=8, UseMarkFilteringSet=0x10,
+    /// MarkAttachmentType=0xFF00.  Bit 0x10 is OR-ed in when `mark_filtering_set` is `Some`.
+    pub flags: u16,
+    pub mark_filtering_set: Option<u16>,
+    /// all subtables of a lookup must have the same lookup type (checked).
+    pub subtables: Vec<S>,
+    /// wrap every subtable in an Extension subtable (GSUB type 7 / GPOS type 9, Offset32).
+    pub use_extension: bool,
+}
+
+impl<S> Default for Lookup<S> {
+    fn default() -> Self {
+        Lookup { flags: 0, mark_filtering_set: None, subtables: Vec::new(), use_extension: false }
+    }
+}
+
+impl<S> Lookup<S> {
+    pub fn new(subtables: Vec<S>) -> Self {
+        Lookup { flags: 0, mark_filtering_set: None, subtables, use_extension: false }
+    }
+    pub fn with_flags(flags: u16, subtables: Vec<S>) -> Self {
+        Lookup { flags, mark_filtering_set: None, subtables, use_extension: false }
+    }
+    pub fn one(subtable: S) -> Self {
+        Lookup::new(vec![subtable])
+    }
+    /// The flags word as written (bit 0x10 added when a filtering set is given).
+    pub fn written_flags(&self) -> u16 {
+        if self.mark_filtering_set.is_some() {
+            self.flags | lookup_flags::USE_MARK_FILTERING_SET
+        } else {
+            self.flags
+        }
+    }
+}
+
+impl<S> Layout<S> {
+    /// DFLT script with a default LangSys listing every feature in order.
+    pub fn with_features(features: Vec<(Tag, Vec<u16>)>, lookups: Vec<Lookup<S>>) -> Self {
+        let n = features.len() as u16;
+        Layout {
+            scripts: vec![ScriptRecord {
+                tag: *b"DFLT",
+                default_langsys: Some(LangSys { required_feature: None, feature_indices: (0..n).collect() }),
+                langsys: Vec::new(),
+            }],
+            features: features
+                .into_iter()
+                .map(|(tag, lookup_indices)| FeatureRecord { tag, lookup_indices })
+                .collect(),
+            lookups,
+        }
+    }
+    /// DFLT script, default LangSys, one feature `tag` that references lookups `0..n_top`
+    /// where `n_top` = lookups.len() (all lookups, in order).
+    pub fn single_feature(tag: Tag, lookups: Vec<Lookup<S>>) -> Self {
+        let n = lookups.len() as u16;
+        Self::with_features(vec![(tag, (0..n).collect())], lookups)
+    }
+    /// Like `single_feature` but the feature references only the first `n_top` lookups (the
+    /// remaining ones are reachable through contextual lookups only).
+    pub fn single_feature_top(tag: Tag, n_top: u16, lookups: Vec<Lookup<S>>) -> Self {
+        Self::with_features(vec![(tag, (0..n_top).collect())], lookups)
+    }
+}
+
+#[derive(Clone, Debug, PartialEq, Eq)]
+pub enum Coverage {
+    /// format 1 (glyphs must be sorted ascending).
+    Glyphs(Vec<u16>),
+    /// format 2: (start, end) inclusive, sorted, disjoint; startCoverageIndex is computed.
+    Ranges(Vec<(u16, u16)>),
+}
+
+impl Default for Coverage {
+    fn default() -> Self {
+        Coverage::Glyphs(Vec::new())
+    }
+}
+
+impl Coverage {
+    /// Covered glyphs in coverage-index order.
+    pub fn glyphs(&self) -> Vec<u16> {
+        match self {
+            Coverage::Glyphs(g) => g.clone(),
+            Coverage::Ranges(rs) => {
+                let mut out = Vec::new();
+                for (s, e) in rs {
+                    let mut g = *s as u32;
+                    while g <= *e as u32 {
+                        out.push(g as u16);
+                        g += 1;
+                    }
+                }
+                out
+            }
+        }
+    }
+    /// Coverage index of a glyph under a linear scan of `glyphs()` (what a well-formed table gives).
+    pub fn index_of(&self, gid: u16) -> Option<u16> {
+        self.glyphs().iter().position(|g| *g == gid).map(|i| i as u16)
+    }
+    pub fn len(&self) -> usize {
+        match self {
+            Coverage::Glyphs(g) => g.len(),
+            Coverage::Ranges(rs) => rs.iter().map(|(s, e)| if e >= s { (*e - *s) as usize + 1 } else { 0 }).sum(),
+        }
+    }
+}
+
+#[derive(Clone, Debug, PartialEq, Eq)]
+pub enum ClassDef {
+    Format1 { start: u16, classes: Vec<u16> },
+    /// (start, end, class), sorted, disjoint.
+    Format2 { ranges: Vec<(u16, u16, u16)> },
+}
+
+impl Default for ClassDef {
+    fn default() -> Self {
+        ClassDef::Format2 { ranges: Vec::new() }
+    }
+}
+
+impl ClassDef {
+    pub fn class_of(&self, gid: u16) -> u16 {
+        match self {
+            ClassDef::Format1 { start, classes } => {
+                if gid >= *start {
+                    classes.get((gid - *start) as usize).copied().unwrap_or(0)
+                } else {
+                    0
+                }
+            }
+            ClassDef::Format2 { ranges } => {
+                ranges.iter().find(|(s, e, _)| *s <= gid && gid <= *e).map(|r| r.2).unwrap_or(0)
+            }
+        }
+    }
+    /// Format 2 with one range per glyph from (glyph, class) pairs (must be sorted by glyph).
+    pub fn from_pairs(pairs: &[(u16, u16)]) -> ClassDef {
+        ClassDef::Format2 { ranges: pairs.iter().map(|(g, c)| (*g, *g, *c)).collect() }
+    }
+}
+
+#[derive(Clone, Copy, Debug, Default, PartialEq, Eq)]
+pub struct SeqLookup {
+    pub sequence_index: u16,
+    pub lookup_index: u16,
+}
+
+#[derive(Clone, Debug, Default, PartialEq, Eq)]
+pub struct Ligature {
+    pub glyph: u16,
+    /// components from the second one.
+    pub components: Vec<u16>,
+}
+
+#[derive(Clone, Debug, Default, PartialEq, Eq)]
+pub struct SeqRule {
+    /// glyphs (format 1) or classes (format 2) from the second position.
+    pub input: Vec<u16>,
+    pub lookups: Vec<SeqLookup>,
+}
+
+#[derive(Clone, Debug, Default, PartialEq, Eq)]
+pub struct ChainRule {
+    /// font order: [0] is immediately before the input.
+    pub backtrack: Vec<u16>,
+    pub input: Vec<u16>,
+    pub lookahead: Vec<u16>,
+    pub lookups: Vec<SeqLookup>,
+}
+
+// ---------------------------------------------------------------------------------------------
+// GSUB
+
+#[derive(Clone, Debug)]
+pub enum SubstSubtable {
+    /// type 1 format 1
+    Single1 { coverage: Coverage, delta: i16 },
+    /// type 1 format 2 (substitutes indexed by coverage index)
+    Single2 { coverage: Coverage, substitutes: Vec<u16> },
+    /// type 2; an empty sequence deletes the glyph
+    Multiple { coverage: Coverage, sequences: Vec<Vec<u16>> },
+    /// type 3
+    Alternate { coverage: Coverage, alternates: Vec<Vec<u16>> },
+    /// type 4
+    Ligature { coverage: Coverage, ligature_sets: Vec<Vec<Ligature>> },
+    /// type 5 format 1; an empty rule set is written as a NULL offset
+    Context1 { coverage: Coverage, rule_sets: Vec<Vec<SeqRule>> },
+    /// type 5 format 2; rule_sets indexed by class of the first glyph; None => NULL offset
+    Context2 { coverage: Coverage, class_def: ClassDef, rule_sets: Vec<Option<Vec<SeqRule>>> },
+    /// type 5 format 3; coverages for every input position (non-empty)
+    Context3 { coverages: Vec<Coverage>, lookups: Vec<SeqLookup> },
+    /// type 6 format 1; an empty rule set is written as a NULL offset
+    ChainContext1 { coverage: Coverage, rule_sets: Vec<Vec<ChainRule>> },
+    /// type 6 format 2
+    ChainContext2 {
+        coverage: Coverage,
+        backtrack_classes: ClassDef,
+        input_classes: ClassDef,
+        lookahead_classes: ClassDef,
+        rule_sets: Vec<Option<Vec<ChainRule>>>,
+    },
+    /// type 6 format 3 (input non-empty; backtrack in font order)
+    ChainContext3 { backtrack: Vec<Coverage>, input: Vec<Coverage>, lookahead: Vec<Coverage>, lookups: Vec<SeqLookup> },
+    /// type 8
+    ReverseChain { coverage: Coverage, backtrack: Vec<Coverage>, lookahead: Vec<Coverage>, substitutes: Vec<u16> },
+}
+
+// ---------------------------------------------------------------------------------------------
+// GPOS
+
+#[derive(Clone, Copy, Debug, Default, PartialEq, Eq)]
+pub struct ValueRecord {
+    pub x_placement: i16,
+    pub y_placement: i16,
+    pub x_advance: i16,
+    pub y_advance: i16,
+}
+
+impl ValueRecord {
+    pub const ZERO: ValueRecord = ValueRecord { x_placement: 0, y_placement: 0, x_advance: 0, y_advance: 0 };
+    pub fn xadv(v: i16) -> Self {
+        ValueRecord { x_advance: v, ..Self::ZERO }
+    }
+    pub fn new(x_placement: i16, y_placement: i16, x_advance: i16, y_advance: i16) -> Self {
+        ValueRecord { x_placement, y_placement, x_advance, y_advance }
+    }
+    /// Value-format bits of the non-zero fields (XPlacement 1, YPlacement 2, XAdvance 4, YAdvance 8).
+    pub fn nonzero_bits(&self) -> u16 {
+        (self.x_placement != 0) as u16
+            | ((self.y_placement != 0) as u16) << 1
+            | ((self.x_advance != 0) as u16) << 2
+            | ((self.y_advance != 0) as u16) << 3
+    }
+}
+
+/// How the ValueFormat word of a positioning subtable is derived.
+#[derive(Clone, Copy, Debug, Default, PartialEq, Eq)]
+pub enum ValueFormat {
+    /// a bit is set iff at least one record of the subtable (in that slot) has the field non-zero.
+    #[default]
+    NonZero,
+    /// always 0x000F (all four fields written).
+    All,
+}
+
+/// The ValueFormat word `build` writes for a set of records under `mode`.
+pub fn value_format_of<'a>(records: impl IntoIterator<Item = &'a ValueRecord>, mode: ValueFormat) -> u16 {
+    match mode {
+        ValueFormat::All => 0x000F,
+        ValueFormat::NonZero => records.into_iter().fold(0, |a, r| a | r.nonzero_bits()),
+    }
+}
+
+/// Anchor format 1.
+#[derive(Clone, Copy, Debug, Default, PartialEq, Eq)]
+pub struct Anchor {
+    pub x: i16,
+    pub y: i16,
+}
+
+#[derive(Clone, Debug)]
+pub enum PosSubtable {
+    /// type 1 format 1
+    Single1 { coverage: Coverage, value: ValueRecord, vf: ValueFormat },
+    /// type 1 format 2 (values indexed by coverage index)
+    Single2 { coverage: Coverage, values: Vec<ValueRecord>, vf: ValueFormat },
+    /// type 2 format 1: pair_sets[coverage index] = (second glyph, value1, value2), sorted by second glyph
+    Pair1 { coverage: Coverage, pair_sets: Vec<Vec<(u16, ValueRecord, ValueRecord)>>, vf: ValueFormat },
+    /// type 2 format 2: records[class1][class2]; class1Count = records.len(), class2Count = records[0].len()
+    Pair2 { coverage: Coverage, class_def1: ClassDef, class_def2: ClassDef, records: Vec<Vec<(ValueRecord, ValueRecord)>>, vf: ValueFormat },
+    /// type 3: entry_exit[coverage index] = (entry, exit)
+    Cursive { coverage: Coverage, entry_exit: Vec<(Option<Anchor>, Option<Anchor>)> },
+    /// type 4: marks[mark coverage index] = (class, anchor); bases[base coverage index][class]
+    MarkBase { mark_coverage: Coverage, base_coverage: Coverage, class_count: u16, marks: Vec<(u16, Anchor)>, bases: Vec<Vec<Option<Anchor>>> },
+    /// type 5: ligatures[lig coverage index][component][class]
+    MarkLig { mark_coverage: Coverage, lig_coverage: Coverage, class_count: u16, marks: Vec<(u16, Anchor)>, ligatures: Vec<Vec<Vec<Option<Anchor>>>> },
+    /// type 6: mark1 attaches to mark2; mark2s[mark2 coverage index][class]
+    MarkMark { mark1_coverage: Coverage, mark2_coverage: Coverage, class_count: u16, marks: Vec<(u16, Anchor)>, mark2s: Vec<Vec<Option<Anchor>>> },
+    /// type 7 formats 1..3 (same shapes as GSUB type 5)
+    Context1 { coverage: Coverage, rule_sets: Vec<Vec<SeqRule>> },
+    Context2 { coverage: Coverage, class_def: ClassDef, rule_sets: Vec<Option<Vec<SeqRule>>> },
+    Context3 { coverages: Vec<Coverage>, lookups: Vec<SeqLookup> },
+    /// type 8 formats 1..3 (same shapes as GSUB type 6)
+    ChainContext1 { coverage: Coverage, rule_sets: Vec<Vec<ChainRule>> },
+    ChainContext2 {
+        coverage: Coverage,
+        backtrack_classes: ClassDef,
+        input_classes: ClassDef,
+        lookahead_classes: ClassDef,
+        rule_sets: Vec<Option<Vec<ChainRule>>>,
+    },
+    ChainContext3 { backtrack: Vec<Coverage>, input: Vec<Coverage>, lookahead: Vec<Coverage>, lookups: Vec<SeqLookup> },
+}
+
+// ---------------------------------------------------------------------------------------------
+// kern
+
+/// One OpenType 'kern' (version 0) format 0 subtable.
+#[derive(Clone, Debug, Default)]
+pub struct KernSubtable {
+    pub horizontal: bool,
+    pub minimum: bool,
+    pub cross_stream: bool,
+    pub override_: bool,
+    /// (left, right, value), sorted by (left, right).
+    pub pairs: Vec<(u16, u16, i16)>,
+}
+
+// ---------------------------------------------------------------------------------------------
+// morx
+
+pub mod morx_coverage {
+    pub const VERTICAL: u32 = 0x8000_0000;
+    pub const BACKWARDS: u32 = 0x4000_0000;
+    pub const ALL_DIRECTIONS: u32 = 0x2000_0000;
+    pub const LOGICAL: u32 = 0x1000_0000;
+}
+
+#[derive(Clone, Debug)]
+pub struct Morx {
+    /// 2 or 3 (version 3 gets an all-zero subtable glyph coverage array after each chain's subtables).
+    pub version: u16,
+    pub chains: Vec<MorxChain>,
+}
+
+impl Default for Morx {
+    fn default() -> Self {
+        Morx { version: 2, chains: Vec::new() }
+    }
+}
+
+#[derive(Clone, Debug, Default)]
+pub struct MorxChain {
+    pub default_flags: u32,
+    pub features: Vec<MorxFeature>,
+    pub subtables: Vec<MorxSubtable>,
+}
+
+#[derive(Clone, Copy, Debug, Default, PartialEq, Eq)]
+pub struct MorxFeature {
+    pub feature_type: u16,
+    pub feature_setting: u16,
+    pub enable_flags: u32,
+    pub disable_flags: u32,
+}
+
+#[derive(Clone, Debug)]
+pub struct MorxSubtable {
+    /// coverage word: the high byte carries the flags (see `morx_coverage`); the low byte (subtable
+    /// type) is derived from `kind` and overwrites whatever is given here.
+    pub coverage: u32,
+    pub sub_feature_flags: u32,
+    pub kind: MorxKind,
+}
+
+/// AAT lookup table.  `map` is (glyph, value) sorted by glyph without duplicates.
+/// * format 0: one value per glyph 0..num_glyphs; glyphs absent from `map` get the fill value.
+/// * format 2: one segment per maximal run of consecutive glyphs with equal value, nUnits without
+///   the terminator, followed by the 0xFFFF/0xFFFF terminator segment.
+/// * format 6: one (glyph, value) entry per pair, followed by the 0xFFFF terminator entry.
+/// * format 8: trimmed array from the first to the last glyph of `map`; gaps get the fill value.
+/// Fill value: `fill` when `Some`, otherwise 1 (OUT_OF_BOUNDS) for class tables and the glyph id
+/// itself for glyph substitution tables (identity).
+#[derive(Clone, Debug, Default)]
+pub struct AatLookup {
+    pub format: u8,
+    pub map: Vec<(u16, u16)>,
+    pub fill: Option<u16>,
+}
+
+impl AatLookup {
+    pub fn new(format: u8, map: Vec<(u16, u16)>) -> Self {
+        AatLookup { format, map, fill: None }
+    }
+}
+
+/// Extended state table.  Classes 0..3 are predefined (0 end of text, 1 out of bounds, 2 deleted
+/// glyph, 3 end of line); custom classes start at 4.  States 0 (start of text) and 1 (start of
+/// line) are predefined.  `states[state][class]` is an index into `entries`; every row must
+/// have `n_classes` elements.  `new_state` in entries is a state (row) index.
+#[derive(Clone, Debug)]
+pub struct StateTable<E> {
+    pub n_classes: u32,
+    pub class_lookup: AatLookup,
+    pub states: Vec<Vec<u16>>,
+    pub entries: Vec<E>,
+}
+
+impl<E> Default for StateTable<E> {
+    fn default() -> Self {
+        StateTable { n_classes: 4, class_lookup: AatLookup::default(), states: Vec::new(), entries: Vec::new() }
+    }
+}
+
+/// flags: markFirst 0x8000, dontAdvance 0x4000, markLast 0x2000, verb 0x000F.
+#[derive(Clone, Copy, Debug, Default, PartialEq, Eq)]
+pub struct RearrEntry {
+    pub new_state: u16,
+    pub flags: u16,
+}
+
+/// flags: setMark 0x8000, dontAdvance 0x4000; indices 0xFFFF = no substitution.
+#[derive(Clone, Copy, Debug, Default, PartialEq, Eq)]
+pub struct CtxEntry {
+    pub new_state: u16,
+    pub flags: u16,
+    pub mark_index: u16,
+    pub current_index: u16,
+}
+
+/// flags: setComponent 0x8000, dontAdvance 0x4000, performAction 0x2000.
+#[derive(Clone, Copy, Debug, Default, PartialEq, Eq)]
+pub struct LigEntry {
+    pub new_state: u16,
+    pub flags: u16,
+    pub lig_action_index: u16,
+}
+
+/// flags: setMark 0x8000, dontAdvance 0x4000, currentIsKashidaLike 0x2000, markedIsKashidaLike
+/// 0x1000, currentInsertBefore 0x0800, markedInsertBefore 0x0400, currentInsertCount 0x03E0,
+/// markedInsertCount 0x001F; indices 0xFFFF = no insertion.
+#[derive(Clone, Copy, Debug, Default, PartialEq, Eq)]
+pub struct InsEntry {
+    pub new_state: u16,
+    pub flags: u16,
+    pub current_insert_index: u16,
+    pub marked_insert_index: u16,
+}
+
+#[derive(Clone, Debug)]
+pub enum MorxKind {
+    /// type 0
+    Rearrangement(StateTable<RearrEntry>),
+    /// type 1
+    Contextual { table: StateTable<CtxEntry>, substitutions: Vec<AatLookup> },
+    /// type 2; lig_actions: last 0x80000000, store 0x40000000, offset = low 30 bits (signed)
+    Ligature { table: StateTable<LigEntry>, lig_actions: Vec<u32>, components: Vec<u16>, ligatures: Vec<u16> },
+    /// type 4
+    NonContextual(AatLookup),
+    /// type 5
+    Insertion { table: StateTable<InsEntry>, glyphs: Vec<u16> },
+}
+
+impl MorxKind {
+    pub fn type_code(&self) -> u8 {
+        match self {
+            MorxKind::Rearrangement(_) => 0,
+            MorxKind::Contextual { .. } => 1,
+            MorxKind::Ligature { .. } => 2,
+            MorxKind::NonContextual(_) => 4,
+            MorxKind::Insertion { .. } => 5,
+        }
+    }
+}
+
+/// Encode a signed ligature-action offset (component index = glyph id + offset) with flags.
+pub fn lig_action(offset: i32, store: bool, last: bool) -> u32 {
+    ((offset as u32) & 0x3FFF_FFFF) | if store { 0x4000_0000 } else { 0 } | if last { 0x8000_0000 } else { 0 }
+}
+
+// ---------------------------------------------------------------------------------------------
+// constructors
+
+impl FontSpec {
+    /// `num_glyphs` glyphs (glyph 0 = .notdef), U+E000+i -> glyph i+1 for i in 0..num_glyphs-1,
+    /// unitsPerEm 1000, ascender 800, descender -200, hadv[g] = 500 + 10*g, format 12 cmap.
+    pub fn basic(num_glyphs: u16) -> FontSpec {
+        assert!(num_glyphs >= 1);
+        FontSpec {
+            num_glyphs,
+            units_per_em: 1000,
+            ascender: 800,
+            descender: -200,
+            line_gap: 0,
+            hadv: (0..num_glyphs).map(Self::basic_hadv).collect(),
+            vmetrics: None,
+            cmap: (1..num_glyphs).map(|g| (pua(g as u32 - 1), g)).collect(),
+            cmap_format: CmapFormat::Format12,
+            cmap14: Vec::new(),
+            gdef: None,
+            gsub: None,
+            gpos: None,
+            kern: None,
+            morx: None,
+            post_names: false,
+        }
+    }
+    /// The advance `basic` gives to glyph `g`.
+    pub fn basic_hadv(g: u16) -> u16 {
+        500u16.wrapping_add(10u16.wrapping_mul(g))
+    }
+    /// vhea/vmtx with vadv[g] = 1000 + 10*g, vertical ascender 500 / descender -500.
+    pub fn with_basic_vmetrics(mut self) -> FontSpec {
+        self.vmetrics = Some(VMetrics {
+            ascender: 500,
+            descender: -500,
+            line_gap: 0,
+            vadv: (0..self.num_glyphs).map(|g| 1000u16.wrapping_add(10u16.wrapping_mul(g))).collect(),
+        });
+        self
+    }
+}
+
+/// Build the font file.
+pub fn build(spec: &FontSpec) -> Vec<u8> {
+    sfnt::build(spec)
+}
+
+/// Well-formedness conditions that the parsers (binary searches) rely on; returns one message
+/// per violation.  `build` does not call this: ill-formed tables can be generated on purpose.
+pub fn check(spec: &FontSpec) -> Vec<String> {
+    let mut v = Vec::new();
+    let n = spec.num_glyphs as usize;
+    if spec.num_glyphs == 0 {
+        v.push("num_glyphs is 0".into());
+    }
+    if !(16..=16384).contains(&spec.units_per_em) {
+        v.push("units_per_em outside 16..=16384".into());
+    }
+    if spec.hadv.len() != n {
+        v.push("hadv.len() != num_glyphs".into());
+    }
+    if let Some(vm) = &spec.vmetrics {
+        if vm.vadv.len() != n {
+            v.push("vadv.len() != num_glyphs".into());
+        }
+    }
+    if !spec.cmap.windows(2).all(|w| w[0].0 < w[1].0) {
+        v.push("cmap not strictly sorted by code point".into());
+    }
+    if !spec.cmap14.windows(2).all(|w| (w[0].1, w[0].0) < (w[1].1, w[1].0)) {
+        v.push("cmap14 not strictly sorted by (selector, base)".into());
+    }
+    if let Some(g) = &spec.gdef {
+        if !g.glyph_classes.windows(2).all(|w| w[0].0 < w[1].0) {
+            v.push("gdef.glyph_classes not sorted".into());
+        }
+        if !g.mark_attach_classes.windows(2).all(|w| w[0].0 < w[1].0) {
+            v.push("gdef.mark_attach_classes not sorted".into());
+        }
+        for (i, s) in g.mark_glyph_sets.iter().enumerate() {
+            if !s.windows(2).all(|w| w[0] < w[1]) {
+                v.push(format!("gdef.mark_glyph_sets[{i}] not sorted"));
+            }
+        }
+    }
+    fn check_layout<S>(name: &str, l: &Layout<S>, covs: impl Fn(&S) -> Vec<Coverage>, v: &mut Vec<String>) {
+        if !l.scripts.windows(2).all(|w| w[0].tag < w[1].tag) {
+            v.push(format!("{name}: scripts not sorted by tag"));
+        }
+        for s in &l.scripts {
+            if !s.langsys.windows(2).all(|w| w[0].0 < w[1].0) {
+                v.push(format!("{name}: langsys of script {:?} not sorted by tag", s.tag));
+            }
+            for ls in s.default_langsys.iter().chain(s.langsys.iter().map(|x| &x.1)) {
+                for f in ls.feature_indices.iter().chain(ls.required_feature.iter()) {
+                    if *f as usize >= l.features.len() {
+                        v.push(format!("{name}: feature index {f} out of range"));
+                    }
+                }
+            }
+        }
+        for f in &l.features {
+            for li in &f.lookup_indices {
+                if *li as usize >= l.lookups.len() {
+                    v.push(format!("{name}: lookup index {li} out of range"));
+                }
+            }
+        }
+        for (i, lk) in l.lookups.iter().enumerate() {
+            for (j, st) in lk.subtables.iter().enumerate() {
+                for c in covs(st) {
+                    let ok = match &c {
+                        Coverage::Glyphs(g) => g.windows(2).all(|w| w[0] < w[1]),
+                        Coverage::Ranges(r) => r.iter().all(|(s, e)| s <= e) && r.windows(2).all(|w| w[0].1 < w[1].0),
+                    };
+                    if !ok {
+                        v.push(format!("{name}: lookup {i} subtable {j}: coverage not sorted"));
+                    }
+                }
+            }
+        }
+    }
+    if let Some(l) = &spec.gsub {
+        check_layout("GSUB", l, layout::subst_coverages, &mut v);
+    }
+    if let Some(l) = &spec.gpos {
+        check_layout("GPOS", l, layout::pos_coverages, &mut v);
+    }
+    if let Some(k) = &spec.kern {
+        for (i, st) in k.iter().enumerate() {
+            if !st.pairs.windows(2).all(|w| (w[0].0, w[0].1) < (w[1].0, w[1].1)) {
+                v.push(format!("kern subtable {i}: pairs not strictly sorted"));
+            }
+        }
+    }
+    v
+}
